@@ -1,7 +1,12 @@
 pub mod core;
 pub mod engine;
 pub mod gen;
+pub mod isolate;
 pub mod model;
 pub mod props;
 pub mod script;
 pub mod sim;
+pub mod tamper;
+
+#[global_allocator]
+static GLOBAL: isolate::Counting = isolate::Counting;
